@@ -303,10 +303,16 @@ class FreshArgs:
         self.tags = state
 
 
-BY_NAME = {'Plain': Plain, 'func': func, 'Color': Color, 'len': len, 'os.path': os.path, 'datetime': datetime, 'dict': dict, 'Point': Point,
+class EagerChild(EagerState):
+    """inherits __setstate__ (and __getstate__) without defining them"""
+
+
+from . import shapes2
+
+BY_NAME = {'Plain2': shapes2.Plain, 'func2': shapes2.func, 'Color2': shapes2.Color, 'Plain': Plain, 'func': func, 'Color': Color, 'len': len, 'os.path': os.path, 'datetime': datetime, 'dict': dict, 'Point': Point,
            'collections.OrderedDict': collections.OrderedDict, 'os.path.join': os.path.join}
-KINDS_MUTABLE_AFTER = {'callable', 'plain', 'list', 'dict', 'slotsdict', 'mylist', 'mydict', 'statedict', 'reducestate', 'odict', 'deque', 'slots', 'reducelist', 'reducedict'}
-PLAIN_CYCLE_KINDS = {'plain', 'list', 'dict', 'callable'}          # cycles through these only must be preserved
+KINDS_MUTABLE_AFTER = {'plain2', 'callable', 'plain', 'list', 'dict', 'slotsdict', 'mylist', 'mydict', 'statedict', 'reducestate', 'odict', 'deque', 'slots', 'reducelist', 'reducedict'}
+PLAIN_CYCLE_KINDS = {'plain', 'list', 'dict', 'callable', 'plain2'}          # cycles through these only must be preserved
 ATOMS = ['abc', '', 'two words', 'a\nb', 'yes', '1', 0, 1, -7, 2 ** 70, 1.5, float('inf'), True, False, None, b'bytes', b'']
 
 
@@ -330,18 +336,18 @@ def gen_spec(r, max_nodes=12, cycles=True, names=True):
     kinds = ['plain', 'plain', 'list', 'dict', 'tuple', 'slots', 'slotsdict', 'slotssetstate', 'statedict', 'statetuple', 'newargs', 'newargsint', 'reducestate',
              'reducelist', 'reducedict', 'indexeddict', 'table', 'mylist', 'mydict', 'mystr', 'myint', 'enum', 'intenum', 'namedtuple', 'complex', 'set', 'frozenset',
              'odict', 'deque', 'defaultdict', 'bytearray', 'range', 'decimal', 'fraction', 'timedelta', 'date', 'withclassref', 'frozen', 'tracking', 'propshadow', 'kwnew',
-             'callable', 'eagerstate', 'snapshot', 'falsystate', 'freshargs', 'freshargs']
+             'callable', 'eagerstate', 'snapshot', 'falsystate', 'freshargs', 'freshargs', 'eagerchild', 'plain2', 'plain2']
     if names:
         kinds += ['name', 'name']
     for _ in range(r.randint(1, max_nodes)):
         k = r.choice(kinds)
         classes.add('shape:' + k)
-        if k in ('plain', 'slotsdict', 'statedict', 'slots', 'slotssetstate', 'statetuple', 'newargs', 'withclassref', 'frozen', 'tracking', 'callable'):
+        if k in ('plain', 'slotsdict', 'statedict', 'slots', 'slotssetstate', 'statetuple', 'newargs', 'withclassref', 'frozen', 'tracking', 'callable', 'plain2'):
             a, b = ref(), ref()
             nodes.append([k, a, b])
         elif k == 'propshadow':
             nodes.append([k, ref(), ref()])
-        elif k in ('eagerstate', 'snapshot'):
+        elif k in ('eagerstate', 'snapshot', 'eagerchild'):
             nodes.append([k, ref()])
         elif k == 'falsystate':
             nodes.append([k, r.randint(0, 9), r.randrange(len(FalsyState.STATES))])
@@ -415,9 +421,9 @@ def gen_spec(r, max_nodes=12, cycles=True, names=True):
 
 def children(n):
     k = n[0]
-    if k in ('plain', 'slotsdict', 'statedict', 'slots', 'slotssetstate', 'statetuple', 'newargs', 'withclassref', 'namedtuple', 'frozen', 'tracking', 'callable'):
+    if k in ('plain', 'slotsdict', 'statedict', 'slots', 'slotssetstate', 'statetuple', 'newargs', 'withclassref', 'namedtuple', 'frozen', 'tracking', 'callable', 'plain2'):
         return [n[1], n[2]]
-    if k in ('propshadow', 'eagerstate', 'snapshot'):
+    if k in ('propshadow', 'eagerstate', 'snapshot', 'eagerchild'):
         return [n[1]]
     if k in ('list', 'tuple', 'mylist', 'reducelist', 'deque', 'set', 'frozenset'):
         return list(n[1])
@@ -465,7 +471,7 @@ def cycle_kinds(spec):
     return out
 
 
-DEEP_KINDS = {'eagerstate', 'snapshot', 'falsystate', 'kwnew', 'slots', 'slotsdict', 'slotssetstate', 'statedict', 'statetuple', 'newargs', 'newargsint', 'reducestate', 'reducelist', 'reducedict', 'indexeddict', 'table',
+DEEP_KINDS = {'eagerchild', 'eagerstate', 'snapshot', 'falsystate', 'kwnew', 'slots', 'slotsdict', 'slotssetstate', 'statedict', 'statetuple', 'newargs', 'newargsint', 'reducestate', 'reducelist', 'reducedict', 'indexeddict', 'table',
               'mylist', 'mydict', 'namedtuple', 'odict', 'deque', 'defaultdict', 'frozenset', 'withclassref'}
 
 
@@ -521,6 +527,10 @@ def build(spec):
             o[i] = CallableObj(o[n[1]], o[n[2]])
         elif k == 'eagerstate':
             o[i] = EagerState(o[n[1]])
+        elif k == 'eagerchild':
+            o[i] = EagerChild(o[n[1]])
+        elif k == 'plain2':
+            o[i] = shapes2.Plain(a=o[n[1]], b=o[n[2]])
         elif k == 'snapshot':
             o[i] = Snapshot(o[n[1]])
         elif k == 'falsystate':
@@ -606,7 +616,7 @@ def build(spec):
     for h, t in spec.get('cycles', []):
         x, y = o[h], o[t]
         k = nodes[h][0]
-        if k in ('plain', 'slotsdict', 'statedict', 'reducestate', 'callable'):
+        if k in ('plain', 'slotsdict', 'statedict', 'reducestate', 'callable', 'plain2'):
             setattr(x, 'x' if k == 'statedict' else ('extra' if k == 'reducestate' else 'back'), y)
         elif k == 'slots':
             x.b = y
@@ -635,18 +645,18 @@ def truthy_states(spec):
     return {'nodes': nodes, 'root': spec['root'], 'cycles': spec.get('cycles', [])}, changed
 
 
-EAGER_KINDS = {'snapshot', 'eagerstate'}
-TWO_PHASE_CONTAINERS = {'list', 'dict', 'set', 'mylist', 'mydict', 'plain', 'callable', 'slotsdict', 'tracking', 'frozen', 'propshadow', 'withclassref'}
+EAGER_KINDS = {'snapshot', 'eagerstate', 'eagerchild'}
+TWO_PHASE_CONTAINERS = {'plain2', 'list', 'dict', 'set', 'mylist', 'mydict', 'plain', 'callable', 'slotsdict', 'tracking', 'frozen', 'propshadow', 'withclassref'}
 
 
 def remap(n, m):
     """node with its references mapped through m"""
     n = list(n)
     k = n[0]
-    if k in ('plain', 'slotsdict', 'statedict', 'slots', 'slotssetstate', 'statetuple', 'newargs', 'withclassref', 'namedtuple', 'frozen', 'tracking', 'callable'):
+    if k in ('plain', 'slotsdict', 'statedict', 'slots', 'slotssetstate', 'statetuple', 'newargs', 'withclassref', 'namedtuple', 'frozen', 'tracking', 'callable', 'plain2'):
         if k != 'withclassref':
             n[1], n[2] = m[n[1]], m[n[2]]
-    elif k in ('propshadow', 'eagerstate', 'snapshot'):
+    elif k in ('propshadow', 'eagerstate', 'snapshot', 'eagerchild'):
         n[1] = m[n[1]]
         if k == 'propshadow':
             n[2] = m[n[2]]
@@ -714,9 +724,9 @@ def unshare(spec, kinds=ATOM_SUBCLASS_KINDS):
     for i in range(n0):
         n = nodes[i]
         k = n[0]
-        if k in ('plain', 'slotsdict', 'statedict', 'slots', 'slotssetstate', 'statetuple', 'newargs', 'withclassref', 'namedtuple', 'frozen', 'tracking', 'callable'):
+        if k in ('plain', 'slotsdict', 'statedict', 'slots', 'slotssetstate', 'statetuple', 'newargs', 'withclassref', 'namedtuple', 'frozen', 'tracking', 'callable', 'plain2'):
             n[1], n[2] = fresh(n[1]), fresh(n[2])
-        elif k in ('propshadow', 'eagerstate', 'snapshot'):
+        elif k in ('propshadow', 'eagerstate', 'snapshot', 'eagerchild'):
             n[1] = fresh(n[1])
         elif k in ('list', 'tuple', 'mylist', 'reducelist', 'deque', 'set', 'frozenset'):
             n[1] = [fresh(j) for j in n[1]]
